@@ -30,6 +30,8 @@ quiet = logging.getLogger('c03quiet')
 quiet.addHandler(logging.NullHandler())
 quiet.setLevel(logging.CRITICAL)
 quiet.propagate = False
+# wcs_helpers warns on every load of a header with a rotated CD matrix
+logging.getLogger('Aegean').setLevel(logging.CRITICAL)
 
 
 # ------------------------------------------------------------------------------------------
@@ -41,6 +43,8 @@ def gauss(shape, amp, r, c, sx, sy, th):
 
 
 KINDS = ['iso', 'pair', 'px1', 'px3', 'neg', 'long', 'px2', 'faintpair', 'posneg', 'bright']
+# further kinds used by the rotated / medium-field images only: elongated sources at other angles
+ELONGATED = ['long', 'long45', 'longm20', 'iso', 'long0']
 
 
 def make_image(spec):
@@ -78,6 +82,12 @@ def make_image(spec):
                 img -= gauss(shape, 0.8, r, c, 1.6, 1.4, -40)
             elif kind == 'long':
                 img += gauss(shape, 0.5, r, c, 3, 1.3, 70)
+            elif kind == 'long45':
+                img += gauss(shape, 1.0, r, c, 3, 1.3, 45)
+            elif kind == 'longm20':
+                img += gauss(shape, 0.7, r, c, 2.8, 1.4, -20)
+            elif kind == 'long0':
+                img += gauss(shape, 0.6, r, c, 3.2, 1.5, 0)
             elif kind == 'posneg':
                 img += gauss(shape, 0.6, r, c - 2.5, 1.4, 1.3, 10)
                 img -= gauss(shape, 0.6, r, c + 2.5, 1.4, 1.3, 10)
@@ -96,11 +106,30 @@ def make_image(spec):
     return img.astype(np.float32)
 
 
+def spec_header(spec, shape):
+    """FITS header of a spec.  Extra keys (handled here, tools/fixtures.py is unchanged): proj ('SIN', 'TAN', ...);
+    rot = rotation of the pixel grid in degrees, written as a CDi_j matrix (wcs = 'CD', the CDELT cards are removed)
+    or as PCi_j + CDELT (wcs = 'PC')"""
+    h = make_header(shape, proj=spec.get('proj', 'SIN'), crval=tuple(spec.get('crval', (150.0, -30.0))),
+                    cdelt=spec.get('cdelt', 10.0 / 3600), beam=tuple(spec.get('beam', (30.0 / 3600, 30.0 / 3600, 0.0))))
+    rot = spec.get('rot')
+    if rot is not None:
+        c, s = math.cos(math.radians(rot)), math.sin(math.radians(rot))
+        cd1, cd2 = h['CDELT1'], h['CDELT2']
+        if spec.get('wcs', 'CD') == 'CD':
+            # CD = [[cdelt1 cos, -cdelt2 sin], [cdelt1 sin, cdelt2 cos]]
+            h['CD1_1'], h['CD1_2'], h['CD2_1'], h['CD2_2'] = cd1 * c, -cd2 * s, cd1 * s, cd2 * c
+            del h['CDELT1']
+            del h['CDELT2']
+        else:
+            r = cd2 / cd1
+            h['PC1_1'], h['PC1_2'], h['PC2_1'], h['PC2_2'] = c, -s * r, s / r, c
+    return h
+
+
 def write_spec_image(spec, path):
     img = make_image(spec)
-    h = make_header(img.shape, crval=tuple(spec.get('crval', (150.0, -30.0))), cdelt=spec.get('cdelt', 10.0 / 3600),
-                    beam=tuple(spec.get('beam', (30.0 / 3600, 30.0 / 3600, 0.0))))
-    write_image(path, img, h)
+    write_image(path, img, spec_header(spec, img.shape))
     return img
 
 
